@@ -278,10 +278,14 @@ def clenshaw_qbfs_der(cs, usq, j=1, alphas=None):
     clenshaw_qbfs(cs, usq, alphas[0])
     for jj in range(1, j+1):
         if jj > M:
-            # derivatives of order > M vanish; the remaining rows stay zero
+            # derivatives of order > M vanish: the whole row is zero
             # (and M-jj would index from the end)
-            break
+            alphas[jj][:] = 0
+            continue
 
+        # entries above M-jj are zero; they are read below, so make sure
+        # they are zero in a caller-supplied buffer too
+        alphas[jj][M-jj+1:] = 0
         alphas[jj][M-jj] = -4 * jj * alphas[jj-1][M-jj+1]
         for n in range(M-jj-1, -1, -1):
             # this is hideous, and just expresses:
@@ -1091,10 +1095,14 @@ def clenshaw_q2d_der(cns, m, usq, j=1, alphas=None):
     # return alphas
     for jj in range(1, j+1):
         if jj > N:
-            # derivatives of order > N vanish; the remaining rows stay zero
+            # derivatives of order > N vanish: the whole row is zero
             # (and N-jj would index from the end)
-            break
+            alphas[jj][:] = 0
+            continue
 
+        # entries above N-jj are zero; they are read below, so make sure
+        # they are zero in a caller-supplied buffer too
+        alphas[jj][N-jj+1:] = 0
         _, b, _ = abc_q2d_clenshaw(N-jj, m)
         alphas[jj][N-jj] = jj * b * alphas[jj-1][N-jj+1]
         for n in range(N-jj-1, -1, -1):
